@@ -4,7 +4,7 @@ use crate::blobfmt;
 use crate::findings::Findings;
 use crate::interp::{Failure, Stats};
 use crate::runner::*;
-use crate::sut::{self, key_bytes, Cfg, LoadMode, Pred, Sut, RR};
+use crate::sut::{self, key_bytes, Bloom, Cfg, LoadMode, Pred, Sut, RR};
 use bytes::Bytes;
 use proptest::prelude::*;
 use serde::{Deserialize, Serialize};
@@ -495,6 +495,165 @@ async fn run_inner(c: &ConcCase, dir: &Path, findings: &Findings) -> Result<Case
     Ok(CaseOut { nontrivial, labels, stats, known_hits: Default::default(), weight: 1 })
 }
 
+/// Lifecycle storm: in every round the active blob is closed, then `tasks` clients released by a barrier call
+/// try_restore_active_blob / try_create_active_blob (an error is fine: somebody else was first) and write a fresh key each.
+#[derive(Clone, Debug, Serialize, Deserialize)]
+pub struct StormCase {
+    pub cfg: Cfg,
+    pub rounds: u16,
+    pub tasks: u8,
+    /// 0: everybody restores, 1: everybody creates, 2: half/half, 3: nobody calls a lifecycle function (writes create the blob)
+    pub kind: u8,
+    pub preload_blobs: u8,
+}
+
+pub fn storm_strategy() -> BoxedStrategy<StormCase> {
+    let cfg = (prop::sample::select(&[8usize, 33][..]), prop_oneof![Just(2usize), Just(8usize), Just(8usize)], prop::bool::weighted(0.3)).prop_map(|(keylen, rt_workers, bloom)| Cfg { keylen, rt_workers, bloom: if bloom { Bloom::Tiny } else { Bloom::None }, allow_dup: true, defer_ms: (2, 5), ..Cfg::default() });
+    (cfg, 40u16..140, prop_oneof![Just(4u8), Just(8), Just(16), Just(32)], 0u8..4, 1u8..5).prop_map(|(cfg, rounds, tasks, kind, preload_blobs)| StormCase { cfg, rounds, tasks, kind, preload_blobs }).boxed()
+}
+
+fn storm_key(keylen: usize, n: u32) -> Vec<u8> {
+    let mut v = vec![(n % 251) as u8; keylen];
+    v[..4].copy_from_slice(&n.to_be_bytes());
+    v
+}
+
+pub fn run_storm(c: &StormCase, dir: &Path, _findings: &Findings) -> Result<CaseOut, Failure> {
+    let rt = c.cfg.runtime();
+    let _ = std::fs::remove_dir_all(dir);
+    let out = rt.block_on(async {
+        let keylen = c.cfg.keylen;
+        let s = match sut::open(&c.cfg, dir, false).await {
+            Ok(s) => s,
+            Err(e) => return fail("init/err", format!("{:#}", e)),
+        };
+        let s: Arc<Box<dyn Sut>> = Arc::new(s);
+        let mut next_key = 0u32;
+        let mut acked: Vec<u32> = vec![];
+        for _ in 0..c.preload_blobs {
+            for _ in 0..5 {
+                if let Err(e) = s.write(&storm_key(keylen, next_key), Bytes::from(value_for(next_key as u64, 0, 24)), 1, None).await {
+                    return fail("write/err", format!("{:#}", e));
+                }
+                acked.push(next_key);
+                next_key += 1;
+            }
+            let _ = s.try_close_active().await;
+        }
+        let mut labels = BTreeSet::new();
+        let mut stats = Stats::default();
+        let mut restore_ok_total = 0u64;
+        let mut prev_round: Vec<u32> = vec![];
+        for round in 0..c.rounds {
+            stats.steps += 1;
+            // no active blob at the start of the storm
+            if s.has_active().await {
+                if let Err(e) = s.try_close_active().await {
+                    return fail("close_active/err", format!("round {}: {:#}", round, e));
+                }
+            }
+            let barrier = Arc::new(tokio::sync::Barrier::new(c.tasks as usize));
+            let mut hs = vec![];
+            let mut this_round = vec![];
+            for t in 0..c.tasks {
+                let key_no = next_key;
+                next_key += 1;
+                this_round.push(key_no);
+                let s = s.clone();
+                let barrier = barrier.clone();
+                let kind = c.kind;
+                hs.push(tokio::spawn(async move {
+                    barrier.wait().await;
+                    let mut restored = false;
+                    match (kind, t % 2) {
+                        (0, _) | (2, 0) => restored = s.try_restore_active().await.is_ok(),
+                        (1, _) | (2, _) => {
+                            let _ = s.try_create_active().await;
+                        }
+                        _ => {}
+                    }
+                    let r = s.write(&storm_key(keylen, key_no), Bytes::from(value_for(key_no as u64, t as u16, 24)), 1, None).await;
+                    (key_no, r.map_err(|e| format!("{:#}", e)), restored)
+                }));
+            }
+            let mut restored_this_round = 0;
+            for h in hs {
+                match h.await {
+                    Ok((k, Ok(()), restored)) => {
+                        acked.push(k);
+                        stats.writes += 1;
+                        if restored {
+                            restored_this_round += 1;
+                        }
+                    }
+                    Ok((k, Err(e), _)) => return fail("conc/storm/write-err", format!("round {}: write of key {} failed: {}", round, k, e)),
+                    Err(e) => return fail("panic", format!("client task: {}", e)),
+                }
+            }
+            restore_ok_total += restored_this_round;
+            if restored_this_round > 1 {
+                // two restores cannot both succeed on one closed blob unless two different blobs were taken: judged by the reads below
+                labels.insert("several_restores_succeeded_in_one_round".to_string());
+            }
+            // every write acknowledged in this and the previous round is readable now
+            for k in this_round.iter().chain(prev_round.iter()) {
+                stats.queries += 1;
+                match s.read(&storm_key(keylen, *k)).await {
+                    Ok(RR::Found(d)) if ts_of(&d) == Some(*k as u64) => {}
+                    Ok(other) => return fail("conc/storm/acknowledged-write-lost", format!("round {} ({} tasks, kind {}): key {} was acknowledged, read returns {}", round, c.tasks, c.kind, k, other.class())),
+                    Err(e) => return fail("conc/storm/read-err", format!("round {}: key {}: {:#}", round, k, e)),
+                }
+            }
+            prev_round = this_round;
+        }
+        if restore_ok_total > 0 {
+            labels.insert("restore_won".to_string());
+        }
+        let _ = sut::wait_quiet(s.as_ref().as_ref(), true, crate::interp::max_wait()).await;
+        // quiescence: everything acknowledged is there, nothing else
+        for k in &acked {
+            stats.queries += 1;
+            match s.read(&storm_key(keylen, *k)).await {
+                Ok(RR::Found(d)) if ts_of(&d) == Some(*k as u64) => {}
+                Ok(other) => return fail("conc/storm/acknowledged-write-lost", format!("at quiescence: key {} was acknowledged, read returns {}", k, other.class())),
+                Err(e) => return fail("conc/storm/read-err", format!("key {}: {:#}", k, e)),
+            }
+        }
+        let rc = s.records_count().await;
+        if rc != acked.len() {
+            return fail("conc/storm/records-count", format!("records_count {} but {} writes were acknowledged (one record each)", rc, acked.len()));
+        }
+        let s = match Arc::try_unwrap(s) {
+            Ok(s) => s,
+            Err(_) => return fail("harness/arc", "storage still shared".into()),
+        };
+        if let Err(e) = s.close().await {
+            return fail("close/err", format!("{:#}", e));
+        }
+        // restart: still everything
+        let s = match sut::open(&c.cfg, dir, false).await {
+            Ok(s) => s,
+            Err(e) => return fail("init/err", format!("after the storm: {:#}", e)),
+        };
+        if s.corrupted_blobs_count() != 0 {
+            return fail("conc/storm/quarantined", format!("corrupted_blobs_count = {}", s.corrupted_blobs_count()));
+        }
+        let rc = s.records_count().await;
+        if rc != acked.len() {
+            return fail("conc/storm/records-count", format!("after restart: records_count {} but {} writes were acknowledged", rc, acked.len()));
+        }
+        let _ = s.close().await;
+        labels.insert(format!("storm_kind_{}", c.kind));
+        Ok(CaseOut { nontrivial: c.tasks >= 4 && c.rounds >= 10, labels, stats, known_hits: Default::default(), weight: 1 })
+    });
+    rt.shutdown_background();
+    out
+}
+
+fn sample_storm(c: &StormCase) -> Value {
+    json!({"cfg": format!("keylen={} rt_workers={} bloom={:?}", c.cfg.keylen, c.cfg.rt_workers, c.cfg.bloom), "rounds": c.rounds, "tasks_per_round": c.tasks, "kind(0 restore,1 create,2 mixed,3 writes only)": c.kind, "preloaded_closed_blobs": c.preload_blobs})
+}
+
 fn sample(c: &ConcCase) -> Value {
     json!({"cfg": format!("keylen={} rt_workers={} max_data_in_blob={} dirty_limit={:?}", c.cfg.keylen, c.cfg.rt_workers, c.cfg.max_data_in_blob, c.cfg.dirty_limit), "clients": c.nclients, "keys": c.nkeys, "steps_per_client": c.steps, "script_seed": c.seed, "reopened_active_blob": c.reopen_first, "maintenance_level": c.maintenance, "perturb_us": c.perturb_us, "burst": c.burst})
 }
@@ -522,10 +681,14 @@ pub fn run(ctx: &RunCtx) -> PropResult {
     let _ = burst_ctx_jobs;
     let runf = |c: &ConcCase, d: &Path| run_conc(c, d, &findings);
     run_enumerated(ctx, "conc-burst", burst_cases(ctx.tier == Tier::Thorough), runf, &sample, &mut report);
+    let runf = |c: &StormCase, d: &Path| run_storm(c, d, &findings);
+    run_replays::<StormCase, _>(ctx, "conc-storm", &ctx.verif_dir.join("replays").join("C08"), runf, &mut report);
+    let runf = |c: &StormCase, d: &Path| run_storm(c, d, &findings);
+    run_generated(ctx, "conc-storm", ctx.tier.pick(96, 1600), storm_strategy, runf, &sample_storm, &mut report);
     PropResult {
         report,
         level: "exploration",
-        rule: "N real client tasks (2/4/8/32/200; bursts of 500-12000 single writes on a full, aged blob) run seeded scripts of write (16 B - 90 KB) / delete / read / contains / read_all on 3-8 keys while a maintenance task forces switches, syncs, frees resources and (level 2) manually closes+creates / restores the active blob; max_data_in_blob 20-80 so that automatic rotation, index dumps and background syncs run underneath; fresh or reopened active blob; current-thread, 2- and 8-worker runtimes; optional sleep perturbation. Timestamps come from one atomic logical clock taken before each call and every value encodes its timestamp, so each key is a max-register. Oracle: for every completed read/contains/read_all of key k: the returned record was written to k by an operation invoked before the read responded (nothing invented, bytes match), its timestamp is >= the largest timestamp acknowledged before the read was invoked (not stale), NotFound only if none, reads ordered in real time are monotone - exactly linearizability of a max-register, no search needed. At quiescence (H3 probe) read_all_with_deletion_marker of every key equals the sequential model of the acknowledged operations; after close every blob file is parsed by the harness: records tile the file, blob_offset equals position, checksums hold, every acknowledged put is stored exactly once, nothing is stored that no client wrote. Deadlock is reported only on a structural witness sampled from the probe (senders blocked on the full queue while holding the read lock, worker waiting for the write lock, zero progress over 5 samples), never on a timeout. Non-trivial = >=1 read overlapped a write of the same key and >=1 blob rotation happened. distinct = FNV hash of the serialized case.".into(),
+        rule: "N real client tasks (2/4/8/32/200; bursts of 500-12000 single writes on a full, aged blob) run seeded scripts of write (16 B - 90 KB) / delete / read / contains / read_all on 3-8 keys while a maintenance task forces switches, syncs, frees resources and (level 2) manually closes+creates / restores the active blob; max_data_in_blob 20-80 so that automatic rotation, index dumps and background syncs run underneath; fresh or reopened active blob; current-thread, 2- and 8-worker runtimes; optional sleep perturbation. Timestamps come from one atomic logical clock taken before each call and every value encodes its timestamp, so each key is a max-register. Oracle: for every completed read/contains/read_all of key k: the returned record was written to k by an operation invoked before the read responded (nothing invented, bytes match), its timestamp is >= the largest timestamp acknowledged before the read was invoked (not stale), NotFound only if none, reads ordered in real time are monotone - exactly linearizability of a max-register, no search needed. At quiescence (H3 probe) read_all_with_deletion_marker of every key equals the sequential model of the acknowledged operations; after close every blob file is parsed by the harness: records tile the file, blob_offset equals position, checksums hold, every acknowledged put is stored exactly once, nothing is stored that no client wrote. Deadlock is reported only on a structural witness sampled from the probe (senders blocked on the full queue while holding the read lock, worker waiting for the write lock, zero progress over 5 samples), never on a timeout. A second generated phase (conc-storm) has 40-140 rounds per case: the active blob is closed, then 4-32 clients released by a barrier all call try_restore_active_blob, or try_create_active_blob, or a mix, or nothing, and write one fresh key each; after every round the writes acknowledged in this and the previous round must be readable, at quiescence and after a restart every acknowledged key is served and records_count equals the number of acknowledged writes (a blob dropped by two racing lifecycle calls shows as lost writes). Non-trivial = >=1 read overlapped a write of the same key and >=1 blob rotation happened (conc); >= 4 clients and >= 10 rounds (conc-storm). distinct = FNV hash of the serialized case.".into(),
         assumptions: {
             let mut a = common_assumptions();
             a.push("interleavings are those the OS and the tokio scheduler produce in these runs: sampled, not enumerated".into());
@@ -536,6 +699,10 @@ pub fn run(ctx: &RunCtx) -> PropResult {
 }
 
 pub fn replay_other(phase: &str, case: &Value, dir: &Path, findings: &Findings) -> Option<Result<CaseOut, Failure>> {
+    if phase == "conc-storm" {
+        let runf = |c: &StormCase, d: &Path| run_storm(c, d, findings);
+        return serde_json::from_value::<StormCase>(case.clone()).ok().map(|c| guarded(&c, dir, &runf));
+    }
     if phase.starts_with("conc") {
         let runf = |c: &ConcCase, d: &Path| run_conc(c, d, findings);
         serde_json::from_value::<ConcCase>(case.clone()).ok().map(|c| guarded(&c, dir, &runf))
